@@ -71,7 +71,14 @@ Section FP.
       SuperModel.s_id_count sf = id_count_field (si_ids img) /\
       SuperModel.s_vmaj sf = SuperModel.s_vmaj s0 /\
       SuperModel.s_vmin sf = SuperModel.s_vmin s0 /\
-      SuperModel.s_root_ref sf = si_root img.
+      SuperModel.s_root_ref sf = si_root img /\
+      w_trace w =
+        [TraceModel.PWrite 0 (SuperModel.encode s0)] ++
+        ev_write SBN (in_opts inp) ++ ev_write (SBN + lenN (in_opts inp)) (in_data inp) ++
+        ev_write (s_inode_start sf) (si_itbl img) ++ ev_write (s_dir_start sf) (si_dtbl img) ++
+        ev_write (o_frag w) (w_fragb w) ++ ev_write (o_export w) (w_exportb w) ++ ev_write (o_id w) (w_idb w) ++
+        ev_write (o_xattr w) (w_xattrb w) ++
+        [TraceModel.PWrite 0 (SuperModel.encode sf)] ++ ev_write (s_bytes_used sf) (zeros (w_pad w)).
 
   Theorem write_image_shape cfg inp w : write_image cfg inp = Ok w -> Shape cfg inp w.
   Proof.
@@ -94,7 +101,7 @@ Section FP.
     destruct (c_devblk cfg =? 0) eqn:E6; try discriminate.
     injection H as <-.
     unfold Shape, o_xattr, o_id, o_export, o_frag, SBN, flags0_of.
-    cbn [w_super w_super0 w_img w_fragb w_exportb w_idb w_xattrb w_export w_pad w_body
+    cbn [w_super w_super0 w_img w_fragb w_exportb w_idb w_xattrb w_export w_pad w_body w_trace
          SuperModel.s_dir_start SuperModel.s_frag_start SuperModel.s_frag_count SuperModel.s_export_start
          SuperModel.s_id_start SuperModel.s_xattr_start SuperModel.s_flags SuperModel.s_bytes_used
          SuperModel.s_inode_start SuperModel.s_magic SuperModel.s_inode_count SuperModel.s_mtime
